@@ -41,6 +41,14 @@ def run(tier, seed, t0):
         if len(e.get("hits", [])) > 50:
             rec["event"]["hits"] = e["hits"][:50] + ["..."]
         v.violation(rec)
+    # model-conformance diagnostic at the real constants: callback ORDER predicted by the TLA+ machines
+    drift = {}
+    for mod, f, cfg in (("Trace_QT", "c04.qt.ndjson", "CONSTANTS MaxItems = 32  MaxDepth = 16  W = 8  MaxN = 0  B = 256  Alphabet = {}\nSPECIFICATION QTSpec\nINVARIANT Judge\nCHECK_DEADLOCK FALSE\n"),
+                        ("Trace_RT", "c04.rt.ndjson", "CONSTANTS MaxEntries = 16  MaxN = 0  B = 256  Alphabet = {}\nSPECIFICATION RTSpec\nINVARIANT Judge\nCHECK_DEADLOCK FALSE\n")):
+        oev, omism, orr = vlib.judge_trace(mod, os.path.join(out, f), cfg=cfg, timeout=3000)
+        drift[mod] = {"searches": len(oev), "callback_order_differs_from_model": len(omism), "states": orr.distinct}
+        for m in omism[:3]:
+            vlib.log("model drift (%s): real callback order %s, model %s" % (mod, oev[m[1] - 1]["hits"][:20], m[2][:20]))
     rc = v.finish()
     st = summ["index_stats"]
     searches = [e for e in events if e["op"] == "search"]
@@ -67,11 +75,13 @@ def run(tier, seed, t0):
         "events_judged_by_tlc": len(events), "mismatches": len(mism),
         "index_structures_reached": st,
         "t5_quadtree": qm, "t5_rtree": rm,
+        "index_machines_at_real_constants": drift,
     }
     vlib.write_evidence(PID, tier, seed, t0, cov, [vlib.TOOLS,
                         "the search semantics only compares coordinates, so non-lattice floats and infinite query bounds are logged as ranks (order embedding)",
                         "the index models are explored at small constants (MaxItems 2, MaxDepth 2, MaxEntries 2, byte radix 3); the real constants are reached only through recorded executions",
-                        "decoded index bytes are used as a coverage meter only (index_structures_reached), never for a verdict"],
+                        "decoded index bytes are used as a coverage meter only (index_structures_reached), never for a verdict",
+                        "index_machines_at_real_constants: TLC rebuilds the QuadTree (MaxItems 32, MaxDepth 16) and RTree (MaxEntries 16) model trees for recorded series of 5..257 points and compares the model's compressed-search callback ORDER with the real one; a difference is model drift (diagnostic), not a violation"],
                         len(v.violations))
     return rc
 
